@@ -1097,10 +1097,10 @@ class Minimizer(
             if args is None:
                 args = tuple()
             # Depending on the minimizer implementation the function returns
-            # only the function value, or a tuple with the function value as
-            # first element followed by its derivatives.
+            # only the function value, or a tuple or list with the function
+            # value as first element followed by its derivatives.
             res = func(xmin, *args)
-            fmin = res[0] if isinstance(res, tuple) else res
+            fmin = res[0] if isinstance(res, (tuple, list)) else res
 
         logger.debug(
             '%s (%s): Minimized function: %d iterations, %d repetitions, '
